@@ -40,7 +40,10 @@ def name_ty(t, node):
         if node.id not in t.env:
             return ("undefined", node.id)
         return t.resolve(t.env[node.id])
-    raise AnalysisError(f"{t.rel}: unsupported table entry {ast.dump(node)[:60]}")
+    # any other type expression (`Optional[None]`, `Union[A, B]`): its value as a type -- which is never the `None`
+    # that stands for "this message has no such type"
+    ty, _ = t._parse(node, f"{t.rel}:{getattr(node, 'lineno', '?')} table entry")
+    return t.resolve(ty)
 
 
 def run(ctx: Ctx):
